@@ -1,12 +1,15 @@
 //! C07 stage 2, target (6): a hostile in-harness TURN server (UDP and TCP). It answers Allocate
 //! (optionally after a 401 challenge) and every later request with a success response, then
 //! sends the client Data indications with empty / short DATA, ChannelData with lying lengths,
-//! mutated STUN and – over TCP – frames whose 16-bit length exceeds the client's 1500-byte
-//! buffer. Liveness stimulus: a Data indication carrying a genuine Binding request from a
+//! mutated STUN and – over TCP, which is framed as RFC 5766 prescribes (STUN messages
+//! self-framed back to back, ChannelData padded to 4, no extra length prefix) – messages whose
+//! declared length exceeds the client's 1500-byte buffer, truncated messages and unpadded
+//! ChannelData. Liveness stimulus: a Data indication carrying a genuine Binding request from a
 //! "peer"; the normal reaction is a Binding success response relayed back through the server
 //! (Send indication or ChannelData) with the same transaction id.
 
 use super::totality_live::{Body, Camp, End, heap_verdict};
+use super::totality_live2::{IceCreds, stun_binding_request};
 use super::totality_mut as mutators;
 use super::totality_pure as pure;
 use crate::alloc_count;
@@ -133,14 +136,13 @@ fn hostile_turn(seeds: &[Vec<u8>], peer: SocketAddr, r: &mut Rng) -> Vec<u8> {
     v
 }
 
-fn probe_request(n: u64) -> (Vec<u8>, [u8; 12]) {
+/// Genuine stimulus: a Binding request that passes the agent's USERNAME / MESSAGE-INTEGRITY
+/// gate (C06 fix), built with rustrtc's own encoder from the agent's local ICE parameters.
+fn probe_request(n: u64, creds: &IceCreds) -> (Vec<u8>, [u8; 12]) {
     let mut tid = [0u8; 12];
     tid[..8].copy_from_slice(&(n + 1).to_be_bytes());
     tid[8..].copy_from_slice(b"c07t");
-    let mut a = attr(0x0006, b"remoteufrag:localufrag");
-    a.extend(attr(0x0024, &1845501695u32.to_be_bytes()));
-    a.extend(attr(0x802a, &7u64.to_be_bytes()));
-    (stun(0x0001, &tid, &a), tid)
+    (stun_binding_request(tid, false, creds), tid)
 }
 
 fn contains(hay: &[u8], needle: &[u8]) -> bool {
@@ -152,15 +154,96 @@ enum Link {
     Tcp(tokio::net::tcp::OwnedWriteHalf),
 }
 
+/// How a message is put on a TURN/TCP stream.
+#[derive(Clone, Copy, PartialEq)]
+enum Framing {
+    /// length field made consistent with the bytes that follow (ChannelData padded to 4), at most
+    /// 1500 bytes: whatever the content, the stream stays in sync and the next message is read
+    Consistent,
+    /// bytes as they are: lying / over-long lengths, truncated messages, unpadded ChannelData
+    Raw,
+}
+
+/// Make `d` a self-consistent RFC 5766 stream element (see `Framing::Consistent`).
+fn reframe(d: &[u8]) -> Vec<u8> {
+    let mut v = d.to_vec();
+    v.truncate(1500);
+    if v.len() < 4 {
+        v.resize(4, 0);
+    }
+    if v[0] & 0xC0 == 0 {
+        // STUN: 20-byte header + body, body length in bytes 2..4
+        if v.len() < 20 {
+            v.resize(20, 0);
+        }
+        let body = (v.len() - 20) as u16;
+        v[2..4].copy_from_slice(&body.to_be_bytes());
+    } else {
+        // ChannelData (and anything else the reader treats as such): 4-byte header + data + pad
+        let body = (v.len() - 4) as u16;
+        v[2..4].copy_from_slice(&body.to_be_bytes());
+        while v.len() % 4 != 0 {
+            v.push(0);
+        }
+    }
+    v
+}
+
+/// Deliberately mis-framed stream elements (the hostile TCP variants).
+fn misframe(d: &[u8], r: &mut Rng) -> Vec<u8> {
+    let mut v = reframe(d);
+    match r.below(6) {
+        0 => {
+            // declared length beyond the client's buffer, and that many bytes really follow
+            let total = *r.pick(&[1501usize, 1504, 1600, 4000, 20 + 0xffff]);
+            let stun = r.bool();
+            v.truncate(4);
+            v[0] = if stun { 0x00 } else { 0x40 };
+            v[1] = if stun { 0x17 } else { 0x00 };
+            let hdr = if stun { 20 } else { 4 };
+            v[2..4].copy_from_slice(&(((total - hdr).min(0xffff)) as u16).to_be_bytes());
+            v.resize(total, 0x55);
+        }
+        1 => {
+            // truncated: the header promises more than is sent (the next message fills the gap)
+            let cut = r.usize_below(v.len().max(5) - 4) + 4;
+            v.truncate(cut.min(v.len()));
+        }
+        2 => {
+            // ChannelData whose padding is missing / whose length is not what follows
+            v = vec![0x40, 0x01];
+            let n = *r.pick(&[1usize, 2, 3, 5, 7]);
+            v.extend_from_slice(&(n as u16).to_be_bytes());
+            v.extend_from_slice(&r.bytes(n));
+        }
+        3 => {
+            // length field one more / one less than the truth
+            let cur = u16::from_be_bytes([v[2], v[3]]);
+            let nv = if r.bool() { cur.wrapping_add(1) } else { cur.wrapping_sub(1) };
+            v[2..4].copy_from_slice(&nv.to_be_bytes());
+        }
+        4 => {
+            // fewer than four bytes, then nothing
+            v.truncate(r.usize_below(4));
+        }
+        _ => {
+            // the raw hostile bytes without any reframing
+            v = d.to_vec();
+        }
+    }
+    v
+}
+
 impl Link {
-    async fn send(&mut self, d: &[u8], tcp_len_lie: Option<u16>) -> bool {
+    async fn send(&mut self, d: &[u8], framing: Framing) -> bool {
         match self {
             Link::Udp(s, to) => s.send_to(d, *to).await.is_ok(),
             Link::Tcp(w) => {
-                let l = tcp_len_lie.unwrap_or(d.len().min(0xffff) as u16);
-                let mut f = l.to_be_bytes().to_vec();
-                f.extend_from_slice(&d[..d.len().min(0xffff)]);
-                w.write_all(&f).await.is_ok()
+                if framing == Framing::Consistent {
+                    w.write_all(&reframe(d)).await.is_ok()
+                } else {
+                    w.write_all(d).await.is_ok()
+                }
             }
         }
     }
@@ -194,6 +277,8 @@ fn turn_body(mut c: Camp) -> Pin<Box<dyn Future<Output = (Camp, End)> + Send>> {
         let (ice, runner) = IceTransport::new(cfg);
         tokio::spawn(runner);
         ice.set_role(IceRole::Controlled);
+        let lp = ice.local_parameters();
+        let creds = IceCreds { ufrag: lp.username_fragment.clone(), pwd: lp.password.clone() };
         c.heap_base = alloc_count::tag_net_bytes(c.id);
         if let Err(e) = ice.start_gathering() {
             return (c, End::Inconclusive(format!("start_gathering: {e}")));
@@ -226,11 +311,15 @@ fn turn_body(mut c: Camp) -> Pin<Box<dyn Future<Output = (Camp, End)> + Send>> {
             let tx = req_tx.clone();
             tokio::spawn(async move {
                 loop {
-                    let mut h = [0u8; 2];
+                    // RFC 5766 stream framing: STUN is self-framed, ChannelData padded to 4
+                    let mut h = [0u8; 4];
                     if r.read_exact(&mut h).await.is_err() { break; }
-                    let l = u16::from_be_bytes(h) as usize;
-                    let mut b = vec![0u8; l];
-                    if r.read_exact(&mut b).await.is_err() { break; }
+                    let body = u16::from_be_bytes([h[2], h[3]]) as usize;
+                    let (len, padded) = if h[0] & 0xC0 == 0 { (20 + body, 20 + body) } else { (4 + body, (4 + body + 3) & !3) };
+                    let mut b = vec![0u8; padded];
+                    b[..4].copy_from_slice(&h);
+                    if r.read_exact(&mut b[4..]).await.is_err() { break; }
+                    b.truncate(len);
                     if tx.send(b).is_err() { break; }
                 }
             });
@@ -260,15 +349,15 @@ fn turn_body(mut c: Camp) -> Pin<Box<dyn Future<Output = (Camp, End)> + Send>> {
                 for _ in 0..n.min(400) {
                     let mut d = hostile_turn(&seeds, peer, &mut c.rng);
                     if c.rng.bool() && d.len() >= 20 && req.len() >= 20 { d[8..20].copy_from_slice(&req[8..20]); }
-                    let lie = if tcp && c.rng.chance(1, 4) { Some(*c.rng.pick(&[0u16, 1, 1500, 1501, 1600, 0xffff])) } else { None };
-                    if tcp && lie.is_some() { d.resize(1700, 0x55); }
+                    let mut fr = Framing::Consistent;
+                    if tcp && c.rng.chance(1, 40) { d = misframe(&d, &mut c.rng); fr = Framing::Raw; }
                     c.fed(&d);
-                    if !l.send(&d, lie).await { break; }
+                    if !l.send(&d, fr).await { break; }
                 }
             }
             if let Some(a) = answer(&req, relayed, client_addr, &mut challenged, challenge) {
                 let is_alloc_ok = a[0] == 0x01 && a[1] == 0x03;
-                l.send(&a, None).await;
+                l.send(&a, Framing::Consistent).await;
                 if is_alloc_ok { allocated = true; }
             }
         }
@@ -291,13 +380,13 @@ fn turn_body(mut c: Camp) -> Pin<Box<dyn Future<Output = (Camp, End)> + Send>> {
         // baseline probe
         let probe = async |l: &mut Link, req_rx: &mut mpsc::UnboundedReceiver<Vec<u8>>, n: u64, challenged: &mut bool| -> bool {
             for attempt in 0..5u64 {
-                let (rq, tid) = probe_request(n * 8 + attempt);
-                if !l.send(&data_indication(peer, Some(&rq)), None).await { return false; }
+                let (rq, tid) = probe_request(n * 8 + attempt, &creds);
+                if !l.send(&data_indication(peer, Some(&rq)), Framing::Consistent).await { return false; }
                 let deadline = Instant::now() + Duration::from_millis(400);
                 while Instant::now() < deadline {
                     if let Ok(Some(m)) = tokio::time::timeout(Duration::from_millis(50), req_rx.recv()).await {
                         if contains(&m, &tid) { return true; }
-                        if let Some(a) = answer(&m, relayed, client_addr, challenged, false) { l.send(&a, None).await; }
+                        if let Some(a) = answer(&m, relayed, client_addr, challenged, false) { l.send(&a, Framing::Consistent).await; }
                     }
                 }
             }
@@ -316,16 +405,19 @@ fn turn_body(mut c: Camp) -> Pin<Box<dyn Future<Output = (Camp, End)> + Send>> {
         }
         for i in 0..n {
             let mut d = hostile_turn(&seeds, peer, &mut c.rng);
-            let lie = if tcp && c.rng.chance(1, 10) { Some(*c.rng.pick(&[0u16, 1, 1500, 1501, 1600, 4000, 0xffff])) } else { None };
-            if let Some(x) = lie { if (x as usize) > d.len() && x != 0xffff { d.resize(x as usize, 0x55); } }
-            if tcp && lie.is_none() && d.len() > 1500 { d.truncate(1500); }
+            // TCP: the first 60 % of the campaign keeps the stream in sync (hostile *content* in
+            // consistent frames, so every message is really parsed and the probes stay meaningful);
+            // afterwards mis-framed elements are mixed in – each of them may legitimately end the
+            // link (error or desynchronisation), which is reported as a clean end, not a hang
+            let mut fr = Framing::Consistent;
+            if tcp && i * 10 >= n * 6 && c.rng.chance(1, 12) { d = misframe(&d, &mut c.rng); fr = Framing::Raw; c.count("live.turn.tcp_misframed_sent", 1); }
             c.fed(&d);
-            if !l.send(&d, lie).await {
+            if !l.send(&d, fr).await {
                 end = End::CleanEnd(format!("client closed the TURN/TCP connection after {} inputs", i + 1));
                 break;
             }
             while let Ok(m) = req_rx.try_recv() {
-                if let Some(a) = answer(&m, relayed, client_addr, &mut challenged, false) { l.send(&a, None).await; }
+                if let Some(a) = answer(&m, relayed, client_addr, &mut challenged, false) { l.send(&a, Framing::Consistent).await; }
             }
             if i % 100 == 99 {
                 probes += 1;
